@@ -23,6 +23,11 @@
           EventKey   into the mapping of an event of Schema!EventDeny: a key k1 not available for that event together
                      with another absent webhook key k2; reference = the document with k2 only.  Predicted: a new
                      `events` diagnostic at the event name or at k1, and every diagnostic of the reference stays
+          DupKey     (where = "unicode") in the case-insensitive mappings whose keys are chosen by the user: entry i
+                     renamed to a NON-ASCII name and duplicated with the case of the non-ASCII letter flipped
+                     (only letters with a simple 1:1 case mapping; with and without an ASCII capital elsewhere).
+                     Same verdict as the ASCII pair: a duplicate at the repetition.  The reference is the
+                     renamed document
           DupKey     a copy of entry i (key in the same / UPPER / Mixed case, value copied) directly
                      after entry i or at the end of the mapping
           DropKey    removal of a key without which no mandatory alternative is satisfied; also together with
@@ -225,6 +230,18 @@ DupVector(r, i, case, where, at, sens) ==
    exp |-> [at |-> IF DupCls(r, case) = "schedule-item" THEN "item" ELSE "key", cls |-> DupCls(r, case),
             siblings |-> TRUE]]
 
+\* non-ASCII key names ("{U+XXXX}" is decoded by the harness): a-umlaut, the same with an ASCII capital elsewhere,
+\* Greek small sigma
+UniKeys == <<"{U+00E4}rger", "{U+00E4}rgeR", "{U+03C3}x">>
+DupUniVector(r, i, u, sens) ==
+  LET so == SOps(r, sens)
+      ren == <<[op |-> "key", path |-> Append(path, i), key |-> UniKeys[u], case |-> ""]>> IN
+  [prop |-> "C13", h |-> C13Common(r, "DupKey", sens), where |-> "unicode", key |-> UniKeys[u], case |-> "mixed",
+   refops |-> so \o ren,
+   ops |-> so \o ren \o <<[op |-> "ins", path |-> path, at |-> i + 1, key |-> UniKeys[u], case |-> "mixed",
+                            copy |-> Append(path, i)]>>,
+   exp |-> [at |-> "key", cls |-> "dup-key", siblings |-> TRUE]]
+
 Breaks(r, key) == /\ key \in ReqKeys(r, Here)
                   /\ ~\E a \in DOMAIN r.req : r.req[a] \subseteq (KeysOf(Here) \ {key})
 DropVector(r, i, sens) ==
@@ -362,6 +379,10 @@ EmitC13 ==
                /\ ~(r.cs /\ ~Closed(r))      \* `on`: another spelling is another event
                /\ r.cs => IsFixedKey(r, Here.p[i][1])
                /\ tc' = ToJson(RenameVector(r, i, case, sens))
+       \/ /\ ~r.cs /\ ~Closed(r) /\ "mixed" \in Cases
+          /\ \E i \in 1 .. n, u \in DOMAIN UniKeys :
+               /\ ~IsFixedKey(r, Here.p[i][1])
+               /\ tc' = ToJson(DupUniVector(r, i, u, sens))
        \/ \E kd \in ActiveKinds(r), w \in {"first", "middle", "last"} :
             \E key \in (r.kinds[kd].deny \cup r.kinds[kd].soft) \ KeysOf(Here) :
               \E form \in FormsOf(FieldByKey(r, key).t) \cup {"null"} :
